@@ -19,6 +19,8 @@ func checkC07(w *World, r *Report, tier string) propMeta {
 	c07R3(w, r)
 	c07R4(w, r, "C07.R4")
 	c07R5(w, r)
+	c05R5(w, r) // an abandoned flush request is answered with a non-nil error, never nil
+	c08R5(w, r) // no answer (a Flush ack included) overtakes the entry check that the flush context is still live
 	return propMeta{
 		explanation: "FIFO acknowledgement follows from four structural legs, each decided statically for every schedule because it removes what a reordering would need: (R1) flushChan has exactly one sender (triggerFlush, reachable only from the ingest actor through flushBufferedData) and one receiver (flushWorker, which calls handleFlush synchronously); (R2) no goroutine is started anywhere in the write-path region; (R3) a Flush request is never answered by the ingest actor — its waiter is parked and flushBufferedData is called unconditionally — and no function other than processIngestRequest (own request only), triggerFlush (abandonment) and handleFlush answers waiters; (R4) the enqueue is a blocking select whose only other case is flushCtx.Done(); (R5) waiters are appended at the tail and answered in slice order.",
 		notDecided:  "Visibility-before-ack across goroutines beyond C06.R1 (nil only after Update-ok); the MetaStore's own ordering.",
